@@ -295,11 +295,29 @@ ERR0 = [{'dc': 'Err'}, {'f': '0', 'of': 'std::result::Result::Err'}]
 
 
 class Opener(NZ.Normalizer):
-    def __init__(self, F):
+    def __init__(self, F, helpers=False):
         super().__init__(F, None, True)
+        # helpers=True: "existing helper reused" - calls of the crate's own inherent / free functions are replaced by their bodies too
+        # (normalize does this only for functions that are new on the tree).  Trait methods stay calls: the Evaluate impls are the
+        # kernels themselves, derived / std traits are value-preserving or irrelevant.
+        if helpers: self.known = {n for n, b in F.bodies.items() if b.kind == 'fn' and b.hdr.get('trait')}
 
     def _normalize(self, d):
-        return self.open(super()._normalize(d))
+        return self.open(super()._normalize(self._strip_views(d)))
+
+    def _strip_views(self, d):
+        """`it.cloned()` / `it.copied()` yield the same elements (ITERISH); taken out so that a closure chain below them
+        (`flat_map(..).cloned().collect()`) reaches its consumer and is written as a loop by the normal form"""
+        hit = [bi for bi, b in enumerate(d['blocks']) if b['term']['k'] == 'call' and b['term']['t'] >= 0 and not b['cleanup']
+               and (b['term'].get('ri') or {}).get('trait') == 'std::iter::Iterator' and (b['term'].get('ri') or {}).get('item') in ('cloned', 'copied') and len(b['term']['args']) == 1]
+        if not hit: return d
+        import copy
+        d = copy.deepcopy(d)
+        for bi in hit:
+            t = d['blocks'][bi]['term']
+            d['blocks'][bi]['st'].append(NZ._use(t['dst'], t['args'][0], (t.get('span') or {}).get('lo', 0)))
+            d['blocks'][bi]['term'] = {'k': 'goto', 't': t['t']}
+        return d
 
     def open(self, d):
         if d.get('kind') == 'promoted': return d
@@ -449,10 +467,10 @@ class Opener(NZ.Normalizer):
         B[blk]['term'] = NZ.mk_call('<%s as std::default::Default>::default' % ty, 'std::default::Default::default', 'std::default::Default', ty, 'default', [], dst, after, span)
 
 
-def opened(ctx, body):
+def opened(ctx, body, helpers=False):
     """the body with Option/Result combinators and calls of its own closures written out (identity if there are none)"""
     try:
-        d = Opener(ctx.F).open(body.d)
+        d = Opener(ctx.F, helpers)._normalize(body.d)         # (helpers inlined +) iterator chains as loops, then combinators / closure calls opened
     except Exception:
         return body                    # not opened: the rules see the calls and fail closed
     if d is body.d: return body
@@ -997,7 +1015,7 @@ def kernel_rules(ctx, short):
     spec = KERNELS[short]; ty = spec['ty']; R = 'C01'
     orig = ctx.method(R + '.anchor/%s::evaluate' % short, ty, 'evaluate', trait='Evaluate')
     if orig is None: return
-    body = opened(ctx, orig)
+    body = opened(ctx, orig, helpers=True)
     K = Kernel(ctx, body); vx = K.vx; K.S = slicer_for(ctx, body, orig); K.spec = spec
     fn = body.name
 
@@ -1046,6 +1064,9 @@ def kernel_rules(ctx, short):
         done.append(1)
         probs = list(problems)
         if len(mains) != 1: probs.append(('expected one Ok((value, ids)) exit, found %d' % len(pairs), None))
+        # no success exit that bypasses the term loop: every Ok-exit is the main exit or a validated empty-list shortcut
+        for e in sorted(body.strict_ok_exits() - {pr[0] for pr in pairs}):
+            probs.append(('a success exit returns something that is not the pair (value, ids) built by this evaluator', body.site(e)))
         decide(ctx, R + '.fields/%s/result' % short, 'T-CARRY', body, probs)
     if len(mains) != 1:
         result_rule(); visible_rule(); return
@@ -1402,10 +1423,22 @@ def oneof_rules(ctx):
     bi, t = sw; m = {v: tg for v, tg in t['ts']}
     targets = {v['name']: m.get(v['discr'], t['else']) for v in en['variants']}
     returned = [n for n, bb in payloads]
+    # the payload evaluations, by dataflow: which Evaluate::evaluate call receives the payload of which variant.  The call may be
+    # written once per arm (static dispatch) or once for several arms through a `&dyn Evaluate` / generic selected in the arms;
+    # the impl that runs is fixed by the type of the payload, which the enum definition fixes.
+    E = [c for c in body.calls if c.item == 'evaluate' and (c.trait or '').endswith('Evaluate') and len(c.args) == 2]
+    recv = {}
+    for c in E:
+        recv[c.bb] = [(variant_payload(a), abb) for a, abb in recv_alts(vx.op(c.args[0]), c.bb)]
+    regs = {}
     for name, tg in targets.items():
         others = [x for n2, x in targets.items() if n2 != name]
-        reg = T.reach_cp(body, [tg]) - set().union(*[T.reach_cp(body, [x]) for x in others if x != tg]) if others else T.reach_cp(body, [tg])
-        evs = [c for c in body.calls if c.bb in reg and c.item == 'evaluate' and 'Evaluate' in (c.trait or '')]
+        regs[name] = T.reach_cp(body, [tg]) - set().union(*[T.reach_cp(body, [x]) for x in others if x != tg]) if others else T.reach_cp(body, [tg])
+    arm_calls = {}
+    for name, tg in targets.items():
+        reg = regs[name]
+        mine = [c for c in E if any(v == name and (abb in reg or c.bb in reg) for v, abb in recv[c.bb])]
+        stray = [c for c in E if c.bb in reg and c not in mine]
         if want.get(name) is None:
             # constant: value is the payload itself
             okc = False
@@ -1413,19 +1446,65 @@ def oneof_rules(ctx):
                 if b2 in reg and st['rv']['k'] == 'agg' and st['rv']['adt'] == 'tuple' and len(st['rv']['ops']) == 2:
                     ex = T.expr(body, st['rv']['ops'][0])
                     if any(f == '0' and 'Constant' in a for a, f in T.expr_fields(ex)): okc = True
-            ctx.check(okc and not evs, R + '/arm/' + name, 'T-BRANCHFX', body.name, 'Constant arm does not return its payload', body.site(tg))
+            ctx.check(okc and not mine and not stray, R + '/arm/' + name, 'T-BRANCHFX', body.name, 'Constant arm does not return its payload', body.site(tg))
         else:
-            ok = len(evs) == 1 and re.search(r'<%s as evaluate::Evaluate>::evaluate' % re.escape(want[name]), evs[0].name) and T.access_path(body, evs[0].args[1])[1] == 2 \
-                 and any(name in a for a, f in T.access_path(body, evs[0].args[0])[0])
+            c = mine[0] if len(mine) == 1 else None
+            named = re.match(r'^<(v1::\w+) as ', c.name) if c else None          # a concrete impl named by the call must be the payload's
+            ok = c is not None and not stray and T.access_path(body, c.args[1])[1] == 2 and (named is None or named.group(1) == want[name]) \
+                 and all(v is not None and want.get(v) is not None for v, abb in recv[c.bb])
             ctx.check(bool(ok), R + '/arm/' + name, 'T-BRANCHFX', body.name, '%s arm does not evaluate its %s payload at the given state' % (name, name), body.site(tg))
-            decide(ctx, R + '/arm/%s/error' % name, 'T-ERRFLOW', body, [('payload evaluation: ' + why, body.site(c.bb)) for c, why in errflow_bad(body, evs)])
+            decide(ctx, R + '/arm/%s/error' % name, 'T-ERRFLOW', body, [('payload evaluation: ' + why, body.site(x.bb)) for x, why in errflow_bad(body, mine + stray)])
             # the value of the chosen arm is returned unchanged:  Ok(e?) ≡ e
-            unchanged = len(evs) == 1 and (evs[0].bb in direct or any(x[0] == 'call' and x[1] == 'evaluate' and x[4] == evs[0].bb for x in returned)
-                                            or any(rebuilt_pair(x, evs[0].bb) for x in returned))
+            unchanged = c is not None and (c.bb in direct or any(x[0] == 'call' and x[1] == 'evaluate' and x[4] == c.bb for x in returned)
+                                           or any(rebuilt_pair(x, c.bb) for x in returned))
             ctx.check(unchanged, R + '/returns-arm-result/' + name, 'T-CARRY', body.name, 'the result of evaluating the %s payload is not what the function returns' % name, body.site(tg))
+            if c is not None: arm_calls[c.bb] = c
+    # nothing else is returned: every Ok-exit hands out an arm's evaluation, the Constant payload, or the zero of the unset oneof
+    foreign = []
+    for bb in sorted(direct):
+        if bb not in arm_calls: foreign.append(('the result of another call is returned', body.site(bb)))
+    for n, bb in payloads:
+        if n[0] == 'call' and n[1] == 'evaluate' and len(n) > 4 and n[4] in arm_calls: continue
+        if any(rebuilt_pair(n, cb) for cb in arm_calls): continue
+        if n[0] == 'agg' and n[1] == 'tuple' and len(n[2]) == 2:
+            va = [(x, b2) for x, b2 in flat_alts(n[2][0], bb)]
+            vb = [x for x, b2 in flat_alts(n[2][1], bb)]
+            if all((x == ('const', '0f64') and b2 in nr) or variant_payload(x) == 'Constant' for x, b2 in va) and all(x[0] == 'call' and x[1] == 'new' and 'BTreeSet' in x[2] for x in vb): continue
+        foreign.append(('an Ok-exit returns something else than an arm\'s result: %s' % T.expr_str(n), body.site(bb)))
+    decide(ctx, R + '/only-arm-results', 'T-BRANCHFX', body, foreign)
     arith_ops = [b2 for b2, st2 in body.stmts() if st2['rv']['k'] in ('bin', 'un') and st2['rv'].get('ty') == 'f64']
     arith_ops += [c.bb for c in body.calls if T.ARITH_CALL.match(c.name) or T.ASSIGN_CALL.match(c.name)]
     ctx.check(not arith_ops, R + '/no-arithmetic', 'T-BRANCHFX', body.name, 'the dispatcher modifies the value', body.site(arith_ops[0]) if arith_ops else body.site())
+
+
+def recv_alts(n, bb):
+    """alternatives of a receiver: phi flattened, unsizing casts (`&T as &dyn Trait`) and reborrows looked through"""
+    n = peel(n)
+    if n[0] == 'cast' and 'dyn ' in n[1]: yield from recv_alts(n[2], bb)
+    elif n[0] == 'phi':
+        for x, b in zip(n[2], n[3]): yield from recv_alts(x, b)
+    else: yield n, bb
+
+
+def self_fields(n):
+    """field path from `self` of a value read through transparent calls (as_ref, deref, ..): [(adt, field)..] or None"""
+    fs = []
+    for _ in range(8):
+        n = peel(n)
+        if n[0] == 'place': return (list(n[2]) + fs) if n[1] == 1 else None
+        if n[0] == 'proj' and not is_item(n): fs = list(n[2]) + fs; n = n[1]; continue
+        return None
+    return None
+
+
+def variant_payload(n):
+    """name of the oneof variant whose payload `self.function as Some.0 as V.0` the value is; None otherwise"""
+    fs = self_fields(n)
+    if not fs or len(fs) < 2 or fs[0] != ('v1::Function', 'function'): return None
+    a, f = fs[-1]
+    m = re.search(r'function::Function::(\w+)$', a)
+    if m and f == '0' and all(x[0].endswith('Option::Some') or x is fs[-1] for x in fs[1:]): return m.group(1)
+    return None
 
 
 def flat_alts(n, bb):
@@ -1455,7 +1534,7 @@ def check(ctx):
         cover(ctx, 'C01.cover/' + ty.split('::')[-1], b, ty, exempt=ex)
     b = ctx.F.one('v1::Linear', 'evaluate', trait='Evaluate'); cover(ctx, 'C01.cover/Term', b, 'v1::linear::Term')
     b = ctx.F.one('v1::Polynomial', 'evaluate', trait='Evaluate'); cover(ctx, 'C01.cover/Monomial', b, 'v1::Monomial')
-    ctx.floor('C01.lookup', 9); ctx.floor('C01.fields', 19); ctx.floor('C01.used', 10); ctx.floor('C01.every-term', 15); ctx.floor('C01.oneof', 15); ctx.floor('C01.linear-none', 2); ctx.floor('C01.cover', 11)
+    ctx.floor('C01.lookup', 9); ctx.floor('C01.fields', 19); ctx.floor('C01.used', 10); ctx.floor('C01.every-term', 15); ctx.floor('C01.oneof', 16); ctx.floor('C01.linear-none', 2); ctx.floor('C01.cover', 11)
 
 
 def thorough(ctx):
